@@ -706,9 +706,46 @@ def bare_class_case(ctx, k):
                        "step": "right after the constructor of a class without built-in items"}, case)
 
 
+def pending_standard_id_case(ctx, k):
+    """the global configuration describes a standard id (NAME, WARN, ...) by a reference to an id nobody knows yet; the
+    component that knows it registers later. The package's global palette - read through its shortcut attributes, as
+    the package's own printers do - shows the item uncolored before and resolved after"""
+    ctx.evaluated()
+    sid, attr = [("NAME", "name"), ("WARN", "warn"), ("KEYWORD", "keyword"), ("OK", "ok"), ("ERROR", "error")][k % 5]
+    base = "VFLATE%d.BASE" % k
+    case = {"kind": "pending-standard-id", "k": k}
+    gp = getattr(akcolor, "global_palette", None)
+    if gp is None or not hasattr(gp, attr):
+        ctx.count("global_palette_not_found(not judged)")
+        return
+    try:
+        conf = ColorsConfig({sid: base + ":underline"})
+        akcolor.set_global_colors_config(conf)
+        try:
+            before = (shown_state(getattr(gp, attr)), shown_state(conf.get_color(sid)))
+            if k % 2:
+                str(gp), getattr(gp, "text")        # (somebody looks at the palette in between)
+            conf.add_new_items({base: "BLUE/g3"}, "a component that registers late")
+            after = (shown_state(getattr(gp, attr)), shown_state(conf.get_color(sid)))
+        finally:
+            akcolor.set_global_colors_config(None)
+    except Exception as err:
+        ctx.violation("registration-raises", {"type": type(err).__name__, "msg": str(err)[:120]}, case)
+        return
+    ctx.count("standard_ids_that_waited_for_a_late_registration")
+    want = (('c', 4), ('c', 235), frozenset({'underline'}))
+    if before != (sgr.DEFAULT, sgr.DEFAULT) or after != (want, want):
+        ctx.violation("synced-palette-is-stale" if after[1] == want and after[0] != want else
+                      "formatter-differs-from-resolved-description",
+                      {"id": sid, "palette": "ak.color.global_palette", "attr": attr,
+                       "shown": repr((before, after))[:240], "expected": repr(want)}, case)
+
+
 def run_shard(ctx):
     for k in range(3):
         built_in_amended_case(ctx, ctx.shard * 10 + k)
+    for k in range(10):
+        pending_standard_id_case(ctx, ctx.shard * 10 + k)
     for k in range(6):
         bare_class_case(ctx, ctx.shard * 10 + k)
     if ctx.shard == 0:
@@ -743,6 +780,9 @@ def replay(ctx, case):
         return
     if case.get("kind") == "built-in-amended":
         built_in_amended_case(ctx, 900 + case["k"])
+        return
+    if case.get("kind") == "pending-standard-id":
+        pending_standard_id_case(ctx, case["k"])
         return
     if case.get("kind") == "bare-class":
         bare_class_case(ctx, case["k"])
